@@ -7,6 +7,7 @@ import numpy as np
 from .. import gen_circuit as G
 from .. import invariants as I
 from .. import shadow
+from .. import wave as W
 from .. import wavecase as WC
 
 ID = 'C07'
@@ -92,7 +93,7 @@ def check_case(case, ctx):
         ctx.count('levels_wide', sum(1 for w in widths if w >= 2))
         ctx.hit('level_widths', str(min(max(widths), 64)))
         WC.simulate(r, ref)
-        ref_s, ref_c = np.asarray(ref.s).copy(), np.asarray(ref.c)[:int(ref.c_len)].copy()      # rows below c_len are signal memory; buffers may be padded
+        ref_s, ref_c_full = np.asarray(ref.s).copy(), np.asarray(ref.c).copy()
 
         # ---- sanitizer: race detector + ownership on cpu and mock-gpu kernels ---------------------
         light = bool(case.get('light'))      # very wide levels (hundreds of operations): static structure + permuted runs, without the per-access sanitizer
@@ -139,15 +140,10 @@ def check_case(case, ctx):
                 ctx.violation('schedule-permutation', f'{cls} thread order {mode}: results differ after permuting the operations inside the published levels; '
                               f'reuse={case["c_reuse"]} strip={case["strip_forks"]} caps={case["caps"]}; {G.net_text(net)[:300]}', case)
                 return
-            if not case['c_reuse'] and not np.array_equal(np.asarray(sim.c)[:int(sim.c_len)], ref_c):
-                # the scratch slot is excluded: its content depends on which output-less cell ran last
-                lo, cap = int(ref.c_locs[ref.tmp_idx]), int(ref.c_caps[ref.tmp_idx])
-                a, b2 = np.asarray(sim.c)[:int(sim.c_len)].copy(), ref_c.copy()
-                a[lo:lo + cap] = 0
-                b2[lo:lo + cap] = 0
-                if not np.array_equal(a, b2):
-                    ctx.violation('schedule-permutation', f'{cls} thread order {mode}: signal memory differs after permuting the operations inside levels; {G.net_text(net)[:300]}', case)
-                    return
+            if not case['c_reuse'] and not W.same_waveforms(sim, sim.c, ref, ref_c_full, skip_idx=(ref.tmp_idx,)):
+                # (the scratch slot is excluded: its content depends on which output-less cell ran last; so are padding rows and content behind terminators)
+                ctx.violation('schedule-permutation', f'{cls} thread order {mode}: waveforms in signal memory differ after permuting the operations inside levels; {G.net_text(net)[:300]}', case)
+                return
         # ---- LogicSim: permutation invariance --------------------------------------------------
         m = case['lm']
         ls0 = LogicSim(b.c, sims=8, m=m, c_reuse=case['c_reuse'], strip_forks=case['strip_forks'])
